@@ -39,6 +39,10 @@ func parseTagAndLength(bytes []byte) (r tagAndLen, off int, e error) {
 		r.len = int64(bytes[off])
 		off++
 	} else {
+		if off+1+int(bytes[off]&0x7f) > len(bytes) {
+			e = fmt.Errorf("length octets are truncated")
+			return r, off, e
+		}
 		len := int(bytes[off] & 0x7f)
 		// fmt.Println("len", len)
 		if len > 3 {
